@@ -70,7 +70,9 @@ def run(ctx):
             return e[0] == "place" and e[1][0] == call_local and any(isinstance(x, dict) and x.get("dc") == "Ok" for x in e[1][1:])
 
         edges = L.guard_edges(ti, ok_true, True)
-        n_nm = 0
+        # the same filter written without the NO_MATCH replacement: the push itself sits under the positive outcome
+        push_under_check = bool(edges) and bool(pushes) and not L.dominated_by_cut(ti, pushes, edges)
+        n_nm = 1 if push_under_check else 0
         for (bi, si, kind, payload) in defs:
             is_nm = kind == "assign" and payload["rv"] == "use" and "NO_MATCH" in str(payload["o"].get("k", ""))
             if is_nm:
@@ -81,7 +83,7 @@ def run(ctx):
             if kind == "call" and payload["f"].get("def", "").endswith("DerivCache::derivative"):
                 # raw derivative: every path from here to the push must pass a re-definition
                 redefs = [d[0] for d in defs if d[0] != bi]
-                bad = L.must_pass(ti, [bi], redefs, targets=[pb])
+                bad = [] if push_under_check else L.must_pass(ti, [bi], redefs, targets=[pb])
                 ctx.check(not bad, "C03-R1", "transition_inner:raw-derivative-rechecked",
                           "the raw derivative is re-assigned (checked value or NO_MATCH) on every path to push_rx",
                           "transition_inner can push a derivative that did not pass the emptiness check", site=ti.where(bi))
